@@ -33,6 +33,19 @@ Proof.
                        (T_CacheEntry_ttl g - (now - T_CacheEntry_stored g))); lia.
 Qed.
 
+(* CacheEntry.IsExpired (the guard of PositiveCache.Get / NegativeCache.Get: an expired entry is
+   dropped at lookup), translated with its time.Now() reading as the parameter [now] (wave 9):
+   it says "expired" exactly when the model's [serve] serves nothing, i.e. from the entry's end
+   of life on *)
+Lemma gen_CacheEntry_IsExpired : forall g now,
+  go_CacheEntry_IsExpired now g = match serve (entry_of_go g) now with None => true | Some _ => false end
+  /\ (go_CacheEntry_IsExpired now g = true <-> entry_end (entry_of_go g) <= now).
+Proof.
+  intros g now. unfold go_CacheEntry_IsExpired, serve. rewrite gen_CacheEntry_remaining.
+  split; [destruct (remaining (entry_of_go g) now <=? 0); reflexivity|].
+  rewrite <- gen_CacheEntry_remaining, gen_CacheEntry_remaining_end. rewrite Z.leb_le. lia.
+Qed.
+
 (* ------------------------------------------------------------------ *)
 (** * The request-tree bound: ResponseMeta.BoundCutFor / Cut / CutUntil / BoundCut
       (middleware/chain.go), translated from the AST (mutex calls are no-ops:
